@@ -270,13 +270,14 @@ fn invoke(sc: &Scenario, fv: &FileVariant, sub: &str, level: u8, stdin: Vec<u8>,
     let mut plan = sc.plan.clone();
     plan.tick_budget = tick_budget;
     let sub = sub.to_string();
+    let verbose = sc.knob("verbose") == 1;
     let (ending, _, world) = sim::run_process(plan, stdin, || {
         use hyeong::util::option::HyeongOption;
         use termcolor::{ColorChoice, StandardStream};
         let mut stdout = StandardStream::stdout(ColorChoice::Never);
         let mut stderr = StandardStream::stderr(ColorChoice::Never);
         let mut stderr_copy = StandardStream::stderr(ColorChoice::Never);
-        let opt = HyeongOption::new().color(ColorChoice::Never).input(path.clone()).optimize(level);
+        let opt = HyeongOption::new().color(ColorChoice::Never).input(path.clone()).optimize(level).verbose(verbose);
         let r = if sub == "check" { hyeong::app::check::run(&mut stdout, &opt) } else { hyeong::app::run::run(&mut stdout, &mut stderr_copy, &opt) };
         hyeong::util::io::handle(&mut stderr, r)
     });
@@ -461,6 +462,9 @@ impl C13 {
         }
         args.push("--color".into());
         args.push("never".into());
+        if sc.knob("verbose") == 1 {
+            args.push("--verbose".into());
+        }
         args.push(path.to_string_lossy().into_owned());
         let chunks = real::chunks_from_plan(&sc.plan, 64);
         let r = match real::run(&bin, &args, None, &sc.stdin, &chunks, Duration::from_secs(60)) {
@@ -503,7 +507,7 @@ impl Property for C13 {
         "fault_enumeration"
     }
     fn rule(&self) -> &'static str {
-        "base scenario = (valid generated program, valid stdin, I/O fault plan); every base is re-run under every file fault class (missing, directory, no/wrong extension, empty, byte flip, cut inside a character, lone continuation byte, UTF-8 noise, byte noise, deep area chain) with run -O0/1/2 and check, \
+        "base scenario = (valid generated program, valid stdin, I/O fault plan, with or without the global --verbose flag); every base is re-run under every file fault class (missing, directory, no/wrong extension, empty, byte flip, cut inside a character, lone continuation byte, UTF-8 noise, byte noise, deep area chain) with run -O0/1/2 and check, \
          and under every stdin fault class (byte flip, cut inside a character, inserted 0xFF, random bytes, empty) at every level: fault classes are enumerated completely per base, positions within a class are sampled from the base's key; \
          oracle = outcome classification (return / program exit 0|1 / status 1 after diagnostic, never panic) plus direction from the reference model; non-trivial = at least one invocation of the base ended in a refusal or a diagnosed encoding error and one ended normally; distinct = distinct base content hash"
     }
@@ -548,6 +552,13 @@ impl Property for C13 {
         sc.set_knob("level_base", rng.below(3) as i64);
         if rng.chance(20) {
             sc.set_knob("layout", 1);
+        }
+        // the global `--verbose` flag on every invocation of this base (drawn last)
+        sc.set_knob("verbose", rng.chance(30) as i64);
+        if rng.chance(4) {
+            // output edge family: values of 2^32 and more, surrogates, values above U+10FFFF written as characters
+            sc.cmds = gen::output_edge(rng);
+            sc.set_knob("output_edge", 1);
         }
         sc
     }
